@@ -185,3 +185,63 @@ PRELUDE = r'''
 #[cfg(not(kani))] pub fn uf_div_euclid64(x: f64, y: f64) -> f64 { x.div_euclid(y) }
 #[cfg(not(kani))] pub fn uf_rem_euclid64(x: f64, y: f64) -> f64 { x.rem_euclid(y) }
 '''
+
+
+# ---------------------------------------------------------------------------------------------
+# float `%` is decided by E2: on the optimised LLVM IR of each build every output lane must be `frem(a[i], b[i])` of that lane's operands
+# (frem is LLVM's fmod, i.e. Rust's `%`; it is kept as an uninterpreted function, so the obligation is "is syntactically the primitive remainder")
+# ---------------------------------------------------------------------------------------------
+def e2_kernels():
+    import sys, os
+    sys.path.insert(0, os.path.join(os.path.dirname(os.path.dirname(os.path.abspath(__file__))), "e2"))
+    from run import K
+    ks = []
+    VT = [("Vec2", "v2", "wv2", 2, 2, 4), ("Vec3", "v3", "wv3", 3, 3, 4), ("Vec3A", "v3ah", "wv3a", 3, 4, 4), ("Vec4", "v4", "wv4", 4, 4, 4),
+          ("DVec2", "dv2", "wdv2", 2, 2, 8), ("DVec3", "dv3", "wdv3", 3, 3, 8), ("DVec4", "dv4", "wdv4", 4, 4, 8)]
+    for T, rd, wr, n, w, elem in VT:
+        f1 = "f" if elem == 4 else "d"
+        def ob(x, o, h, n=n, w=w, T=T):
+            obs = [(f"{T} % {T} lane {j} == a[{j}] % b[{j}]", h.eq(o[j], h.uf("frem", x[j], x[w + j]))) for j in range(n)]
+            k = x[2 * w]
+            obs += [(f"{T} % scalar lane {j}", h.eq(o[n + j], h.uf("frem", x[j], k))) for j in range(n)]
+            obs += [(f"scalar % {T} lane {j}", h.eq(o[2 * n + j], h.uf("frem", k, x[j]))) for j in range(n)]
+            obs += [(f"{T} %= {T} lane {j}", h.eq(o[3 * n + j], h.uf("frem", x[j], x[w + j]))) for j in range(n)]
+            return obs
+        ks.append(K(f"{T.lower()}_rem", 2 * w + 1, 4 * n,
+                    f"let a = {rd}(i, 0); let b = {rd}(i, {w}); let k = {f1}(i, {2 * w}); {wr}(o, 0, a % b); {wr}(o, {n}, a % k); {wr}(o, {2 * n}, k % a); let mut c = a; c %= b; {wr}(o, {3 * n}, c);",
+                    ob, elem=elem, site=f"{T}::rem", desc=f"{T} % (vector, scalar, scalar-lhs, assign forms): every lane is the primitive remainder (frem) of that lane's operands"))
+    return ks
+
+
+def e2_run(tier, seed):
+    """`%`: syntactic obligation on the mode-U term DAG (robust against implementations the mode-R encoder cannot read, e.g. bit-trick floors), native replay on mismatch"""
+    import sys, os, math, json
+    VERIF = os.path.dirname(os.path.dirname(os.path.abspath(__file__)))
+    sys.path.insert(0, os.path.join(VERIF, "e2"))
+    import run as e2run, ir
+    ks = e2_kernels()
+    VTW = {"vec2": (2, 2), "vec3": (3, 3), "vec3a": (3, 4), "vec4": (4, 4), "dvec2": (2, 2), "dvec3": (3, 3), "dvec4": (4, 4)}
+    for k in ks:
+        n, w = VTW[k.name.split("_")[0]]
+        def terms(n=n, w=w):
+            I = lambda j: ir.T("in", j)
+            return [ir.T("frem", I(j), I(w + j)) for j in range(n)] + [ir.T("frem", I(j), I(2 * w)) for j in range(n)] + [ir.T("frem", I(2 * w), I(j)) for j in range(n)] + [ir.T("frem", I(j), I(w + j)) for j in range(n)]
+        def num(xs, n=n, w=w):
+            fm = lambda a, b: math.fmod(a, b) if (b != 0 and not math.isinf(a) and not math.isnan(a) and not math.isnan(b)) else float("nan")
+            return [fm(xs[j], xs[w + j]) for j in range(n)] + [fm(xs[j], xs[2 * w]) for j in range(n)] + [fm(xs[2 * w], xs[j]) for j in range(n)] + [fm(xs[j], xs[w + j]) for j in range(n)]
+        k.expect_terms, k.expect_num = terms, num
+    out = []
+    for cfg in ("sse2", "scalar"):
+        try:
+            rs = e2run.run_syntactic("c01", cfg, ks, seed=seed)
+        except Exception as e:
+            out.append(dict(site=f"e2-build-{cfg}", status="broken", detail=str(e)[:600], cfg=cfg, secs=0))
+            continue
+        for r in rs:
+            if r["status"] == "fail":
+                path = os.path.join(VERIF, "evidence", "replays", "C01", f"e2-{r['kernel']}-{cfg}.json")
+                os.makedirs(os.path.dirname(path), exist_ok=True)
+                json.dump(dict(property="C01", engine="E2-U", kernel=r["kernel"], cfg=cfg, inputs=r.get("inputs"), detail=r["detail"]), open(path, "w"), indent=1)
+                r["replay_path"] = path
+            out.append(r)
+    return out
